@@ -131,7 +131,7 @@ def run(ctx):
                 'slicing operations) x schedulers synchronous / threads (every case) and processes (a subset); float32/64, complex64/128; '
                 'a sentinel map_blocks layer under the input counts executed blocks while the result graph is built. distinct by '
                 '(op, class, shape, chunks, dtype).')
-    ctx.trusted = ['Coq 8.16.1 kernel (axiom-free model theorems)', 'dask\'s graph construction, optimisation and schedulers (exercised, not modelled)',
+    ctx.trusted = ['translator T15 translate/py_dask2coq.py (syntax-tree pins of the signal_transform wrapper and the container helpers)', 'Coq 8.16.1 kernel (axiom-free model theorems)', 'dask\'s graph construction, optimisation and schedulers (exercised, not modelled)',
                    'thread safety of the NumPy / SciPy kernels under the threaded scheduler (exercised)']
     ctx.assumptions = ['values are compared bit for bit where the Dask path runs the same kernel on the same lanes, and within 4 ulp-scale tolerance '
                        '(1e-6 single / 1e-12 double, relative to max|x|) otherwise (FFT of a chunk vs of the whole array)']
